@@ -25,6 +25,7 @@ impl<const BITS: usize, const LIMBS: usize> Uint<BITS, LIMBS> {
 //@ import core ZERO
 }
 
+//@ include lib/lehmer_spec.rs
 //@ include lib/lehmer.rs
 
 //@ extract src/algorithms/gcd/mod.rs fn gcd consts=IDENTITY cprefix=LehmerMatrix
